@@ -334,8 +334,14 @@ def decide(v, prop, tier, opts):
             continue
         # failed
         unknown = []
+        allowed = opts.get("allowed_failures") or []
+        n_allowed = 0
         for desc, fn, st in r.failed:
             key = f"{r.short()}::{desc} @ {fn}"
+            if any(re.search(hp, r.short()) and re.search(dp, desc) for hp, dp in allowed):
+                # a clean, documented panic that the property accepts on this input (e.g. window 0)
+                n_allowed += 1
+                continue
             if UNWIND_PAT.search(desc) and not opts.get("unwind_is_violation"):
                 v.inconcl(f"harness {r.name}: unwinding bound too small ({desc})")
                 continue
@@ -350,6 +356,8 @@ def decide(v, prop, tier, opts):
             need_replay.append((r, unknown))
         elif not bad_cov:
             v.nontrivial += 1
+        if n_allowed:
+            row["accepted_clean_panics"] = n_allowed
     # native replay of everything not explained by the known-findings file
     for r, unknown in need_replay:
         path, tests = playback(prop, tier, r.name, timeout_s, mem_gb)
